@@ -187,7 +187,8 @@ def mc_serpipe(ctx):
 
 def mc_cobsdec(ctx):
     for mr in ctx.pick([3], [2, 3, 4]):
-        tlc_mc(ctx, f"cobsdec-MR{mr}", "MC_CobsDec", tmpl("MC_CobsDec", MR=mr, MaxLen=ctx.pick(7, 8)), workers=12)
+        # the input set [1..MaxLen -> 0..MR+1] must stay below TLC's 10^6 set-size limit
+        tlc_mc(ctx, f"cobsdec-MR{mr}", "MC_CobsDec", tmpl("MC_CobsDec", MR=mr, MaxLen=ctx.pick(7, 8 if mr <= 3 else 7)), workers=12)
 
 
 def mc_crc(ctx):
